@@ -16,32 +16,5 @@ mod text;
 mod upstream;
 
 fn main() {
-    if std::env::args().nth(1).as_deref() == Some("gencrate-probe") {
-        vcommon::install_panic_hook();
-        let seed = std::env::args().nth(2).and_then(|s| s.parse().ok()).unwrap_or(1);
-        let id = batch::BatchId { seed, thorough: false, index: 0 };
-        let b = batch::generate_batch(id);
-        let t0 = std::time::Instant::now();
-        let prep = gencrate::prepare(&b);
-        println!("prepared {} modules, {} problems in {:.1}s", prep.modules.len(), prep.problems.len(), t0.elapsed().as_secs_f64());
-        for p in &prep.problems {
-            println!("problem g{} {} {}: {}\n{}", p.group, p.variant, p.schema, p.signature, p.detail);
-        }
-        let types: usize = prep.modules.iter().map(|m| m.types.len()).sum();
-        let bytes: usize = prep.modules.iter().map(|m| m.rust.len()).sum();
-        println!("{} registry entries, {} bytes of Rust", types, bytes);
-        let r = gencrate::ensure_built(&id.key(), &prep);
-        println!("build: {:.1}s rounds={} binary={:?} infra={:?}", r.seconds, r.rounds, r.binary, r.infra);
-        for (f, e) in &r.failed_modules {
-            println!("FAILED MODULE {f}:\n{e}");
-        }
-        if let Some(bin) = &r.binary {
-            let mut s = gencrate::Server::spawn(bin).unwrap();
-            println!("server entries {}", s.entries);
-            let k = &prep.modules[0].types.first().map(|t| t.0.clone()).unwrap_or_default();
-            println!("{k}: {:?}", s.type_id(k));
-        }
-        return;
-    }
     vcommon::main(&[&c16::DEF, &c17::DEF, &c18::DEF, &c20::DEF])
 }
